@@ -168,6 +168,15 @@ Proof.
   apply (upd_set_chan_aset h ch c); auto.
 Qed.
 
+Lemma Inv_set_ret : forall h r, Inv h -> Inv (set_ret h r).
+Proof. intros. eapply Inv_frame; eauto; frame_tac. intros ? ?; reflexivity. Qed.
+Lemma Inv_touch_stream : forall h ch t, Inv h -> Inv (touch_stream h ch t).
+Proof. intros. unfold touch_stream. apply Inv_set_ret. assumption. Qed.
+Lemma Inv_touch_meta : forall h ch t, Inv h -> Inv (touch_meta h ch t).
+Proof. intros. unfold touch_meta. destruct (0 <? t); auto. Qed.
+Lemma Inv_ret_touch : forall cf h ch, Inv h -> Inv (ret_touch cf h ch).
+Proof. intros. unfold ret_touch. destruct (has_stream (cf_mode cf)); auto. apply Inv_touch_meta, Inv_touch_stream. assumption. Qed.
+
 Lemma add_Inv : forall cf h ch k o h' p pp r tp,
   Inv h -> add cf h ch k o = (h', p, pp, r, tp) -> Inv h'.
 Proof.
@@ -182,14 +191,14 @@ Proof.
     unfold add_commit in H. rewrite EK in H.
     destruct (has_stream (cf_mode cf)).
     + destruct (stream_add (c_stream c) (fun off => mkPub k off (po_data o) (po_tags o) false (po_score o)) (cf_size cf)) as [s' off].
-      inversion H; subst. apply (Inv_set_chan_same h1 ch c); auto.
-    + inversion H; subst. apply (Inv_set_chan_same h1 ch c); auto.
+      inversion H; subst. apply Inv_ret_touch. apply (Inv_set_chan_same h1 ch c); auto.
+    + inversion H; subst. apply Inv_ret_touch. apply (Inv_set_chan_same h1 ch c); auto.
   - assert (KN : k <> []) by (intro C; subst; discriminate).
     destruct (match po_mode o, aget key_eqb (c_state c) k with
               | KIfNew, Some e =>
                   if po_refresh o && (0 <? cf_keyttl cf)
-                  then Some (track (set_chan h1 ch (set_entry_nodirty c (aset key_eqb (c_state c) k
-                          (mkEntry (e_pub e) (h_now h1 + cf_keyttl cf) (e_ver e) (e_vep e))))) (ch, k) (h_now h1 + cf_keyttl cf), RKeyExists)
+                  then Some (touch_meta (track (set_chan h1 ch (set_entry_nodirty c (aset key_eqb (c_state c) k
+                          (mkEntry (e_pub e) (h_now h1 + cf_keyttl cf) (e_ver e) (e_vep e))))) (ch, k) (h_now h1 + cf_keyttl cf)) ch (cf_mttl cf), RKeyExists)
                   else Some (h1, RKeyExists)
               | KIfExists, None => Some (h1, RKeyNotFound)
               | _, _ => None
@@ -197,7 +206,7 @@ Proof.
     + inversion H; subst; clear H.
       destruct (po_mode o); try discriminate; destruct (aget key_eqb (c_state c) k) as [e|]; try discriminate.
       * destruct (po_refresh o && (0 <? cf_keyttl cf)) eqn:RF; inversion KM; subst; auto.
-        apply andb_true_iff in RF as [_ TT]. apply N.ltb_lt in TT.
+        apply andb_true_iff in RF as [_ TT]. apply N.ltb_lt in TT. apply Inv_touch_meta.
         apply (Inv_track_set h1 ch c _ k (mkEntry (e_pub e) (h_now h1 + cf_keyttl cf) (e_ver e) (e_vep e))); auto.
         simpl. lia.
       * inversion KM; subst; auto.
@@ -212,11 +221,11 @@ Proof.
       destruct (if po_ver o =? 0 then match aget key_eqb (c_state c) k with Some e => (e_ver e, e_vep e) | None => (0, po_vep o) end
                 else (po_ver o, po_vep o)) as [ver vep].
       destruct (0 <? cf_keyttl cf) eqn:TT; inversion H; subst; clear H.
-      * apply N.ltb_lt in TT.
+      * apply N.ltb_lt in TT. apply Inv_ret_touch.
         apply (Inv_track_set h1 ch c _ k (mkEntry (mk (if has_stream (cf_mode cf) || negb false then fst p else 0)) (h_now h1 + cf_keyttl cf) ver vep)); auto.
         -- simpl. rewrite ST1. reflexivity.
         -- simpl. lia.
-      * apply (Inv_untracked_chan h1 ch c _ k (mkEntry (mk (if has_stream (cf_mode cf) || negb false then fst p else 0)) 0 ver vep)); auto.
+      * apply Inv_ret_touch. apply (Inv_untracked_chan h1 ch c _ k (mkEntry (mk (if has_stream (cf_mode cf) || negb false then fst p else 0)) 0 ver vep)); auto.
         simpl. rewrite ST1. reflexivity.
 Qed.
 
@@ -252,7 +261,7 @@ Proof.
   destruct (has_stream (cf_mode cf)).
   - destruct (stream_add (c_stream (set_state c (adel key_eqb (c_state c) k)))
                 (fun off => mkPub k off 0 (match ro_tags o with Some t => Some t | None => p_tags (e_pub e) end) true 0%Z) (cf_size cf)) as [s' off].
-    inversion H; subst. apply FIN. reflexivity.
+    inversion H; subst. apply Inv_ret_touch. apply FIN. reflexivity.
   - inversion H; subst. apply FIN. reflexivity.
 Qed.
 
@@ -298,9 +307,12 @@ Proof.
   - intros it HI. apply fold_adel_In in HI. auto.
 Qed.
 
-Lemma read_stream_Inv : forall h ch since lim rv h' r, Inv h -> read_stream h ch since lim rv = (h', r) -> Inv h'.
+Lemma read_stream_Inv : forall cfgs h ch since lim rv h' r, Inv h -> read_stream cfgs h ch since lim rv = (h', r) -> Inv h'.
 Proof.
-  intros h ch since lim rv h' r IV H. unfold read_stream in H.
+  intros cfgs h ch since lim rv h' r IV H. unfold read_stream in H.
+  set (h0 := touch_meta h ch (mttl_of cfgs ch)) in *.
+  assert (IV0 : Inv h0) by (apply Inv_touch_meta; exact IV).
+  clearbody h0. clear h IV. rename h0 into h. rename IV0 into IV.
   destruct (get_chan h ch) as [c|] eqn:G.
   - destruct since as [[so se]|].
     + destruct (negb (se =? 0) && negb (se =? s_epoch (c_stream c))); [inversion H; subst; auto|].
@@ -319,6 +331,9 @@ Lemma read_state_Inv : forall cfgs h ch rev cur lim k asc h' r,
 Proof.
   intros cfgs h ch rev cur lim k asc h' r IV H. unfold read_state in H.
   destruct (cfg_of cfgs ch) as [cf|ee]; [|inversion H; subst; auto].
+  set (h0 := touch_meta h ch (cf_mttl cf)) in *.
+  assert (IV0 : Inv h0) by (apply Inv_touch_meta; exact IV).
+  clearbody h0. clear h IV. rename h0 into h. rename IV0 into IV.
   destruct (get_chan h ch) as [c|] eqn:G.
   - destruct (get_state_chan c rev cur lim k asc) as [c1 r1] eqn:GS. inversion H; subst.
     apply (Inv_set_chan_same h ch c); auto.
@@ -342,6 +357,44 @@ Proof.
   destruct (phase2 h) eqn:P; auto. apply IHfuel. eapply phase2_Inv; eauto.
 Qed.
 
+Lemma clear_stream_Inv : forall h ch, Inv h -> Inv (clear_stream h ch).
+Proof.
+  intros h ch IV. unfold clear_stream. destruct (get_chan h ch) as [c|] eqn:G; auto.
+  apply (Inv_set_chan_same h ch c); auto.
+Qed.
+Lemma fold_clear_stream_Inv : forall l h, Inv h -> Inv (fold_left clear_stream l h).
+Proof. induction l; intros h IV; simpl; auto. apply IHl. apply clear_stream_Inv. assumption. Qed.
+
+Lemma expire_streams_Inv : forall h h' ok, Inv h -> expire_streams h = (h', ok) -> Inv h'.
+Proof.
+  intros h h' ok IV H. unfold expire_streams in H.
+  destruct ((r_snext (h_ret h) =? 0) || (h_now h <? r_snext (h_ret h))); [inversion H; subst; auto|].
+  destruct (ttl_loop _ _ _ _ _) as [[[[m q] fired] next] ok1]. inversion H; subst.
+  apply fold_clear_stream_Inv. apply Inv_set_ret. assumption.
+Qed.
+
+Lemma fold_adel_get : forall (l : list N) (cs : list (N * mchan)) i,
+  aget N.eqb (fold_left (fun cs ch => adel N.eqb cs ch) l cs) i = None \/
+  aget N.eqb (fold_left (fun cs ch => adel N.eqb cs ch) l cs) i = aget N.eqb cs i.
+Proof.
+  induction l as [|x l IH]; intros cs i; simpl; auto.
+  destruct (IH (adel N.eqb cs x) i) as [A|A]; auto. rewrite A.
+  destruct (N.eq_dec i x) as [->|NE].
+  - left. apply (aget_adel_same N.eqb).
+  - right. apply (aget_adel_other N.eqb N_eqb_eq'). auto.
+Qed.
+
+Lemma remove_channels_Inv : forall h h' ok, Inv h -> remove_channels h = (h', ok) -> Inv h'.
+Proof.
+  intros h h' ok IV H. unfold remove_channels in H.
+  destruct ((r_rnext (h_ret h) =? 0) || (h_now h <? r_rnext (h_ret h))); [inversion H; subst; auto|].
+  destruct (ttl_loop _ _ _ _ _) as [[[[m q] fired] next] ok1]. inversion H; subst; clear H.
+  destruct IV as (T & NX & QO & KO & (PO1 & PO2)).
+  unfold Inv, tracked, next_ok, pend_ok; simpl. splits; auto.
+  intros i k e HE DP. apply T; auto. unfold entry_at, get_chan in *. simpl in HE.
+  destruct (fold_adel_get fired (h_chans h) i) as [A|A]; rewrite A in HE; [discriminate|exact HE].
+Qed.
+
 Theorem step_Inv : forall cfgs h o h' r, Inv h -> step cfgs h o = (h', r) -> Inv h'.
 Proof.
   intros cfgs h o h' r IV H. destruct o; simpl in H.
@@ -349,7 +402,7 @@ Proof.
   - destruct (remove cfgs h ch k o) eqn:E. inversion H; subst. eapply remove_Inv; eauto.
   - inversion H; subst. apply clear_Inv; auto.
   - destruct (read_state cfgs h ch rev cursor limit k asc) eqn:E. inversion H; subst. eapply read_state_Inv; eauto.
-  - destruct (read_stream h ch since limit reverse) eqn:E. inversion H; subst. eapply read_stream_Inv; eauto.
+  - destruct (read_stream cfgs h ch since limit reverse) eqn:E. inversion H; subst. eapply read_stream_Inv; eauto.
   - inversion H; subst. apply advance_Inv; auto.
   - destruct (h_pend h) eqn:PE; [|inversion H; subst; auto].
     destruct (phase1 cfgs h) as [h1 ok] eqn:P1. inversion H; subst.
@@ -358,4 +411,6 @@ Proof.
   - destruct (h_pend h) eqn:PE; [|inversion H; subst; auto].
     destruct (phase1 cfgs h) as [h1 ok] eqn:P1. inversion H; subst.
     destruct (phase1_spec _ _ _ _ IV PE P1) as (_ & IV1 & _). apply phase2_all_Inv. exact IV1.
+  - destruct (expire_streams h) as [h1 ok] eqn:E. inversion H; subst. eapply expire_streams_Inv; eauto.
+  - destruct (remove_channels h) as [h1 ok] eqn:E. inversion H; subst. eapply remove_channels_Inv; eauto.
 Qed.
